@@ -40,6 +40,7 @@ type Up4Gen struct {
 	Wide bool
 	// ForceSessQer / OneFlow: every session has a session QER / exactly one flow (crowds that hold many meter cells)
 	ForceSessQer bool
+	SymQer       bool   // flow QERs have the same maximum rate in both directions
 	BeforeDelete func() // called before every Session Deletion Request the generator sends (e.g. to arm a write failure)
 	ForceFwd     bool   // sessions forward downlink traffic to a gNB from their establishment on
 	OneFlow      bool
@@ -352,7 +353,7 @@ func (g *Up4Gen) appQer(id uint32) pfcpx.QER {
 	q := pfcpx.QER{ID: id, QFI: g.QFIs[g.R.Intn(len(g.QFIs))], ULMBR: uint64(1000 + g.R.Intn(1000000)), DLMBR: uint64(1000 + g.R.Intn(1000000)),
 		ULGBR: uint64(g.R.Intn(1000)), DLGBR: uint64(g.R.Intn(1000))}
 
-	if g.R.Intn(3) == 0 { // the same rate in both directions (one meter cell can serve both; an update may need a second one)
+	if g.R.Intn(3) == 0 || g.SymQer { // the same rate in both directions (one meter cell can serve both; an update may need a second one)
 		q.DLMBR = q.ULMBR
 	}
 
